@@ -103,7 +103,7 @@ def main(argv):
     outdir = os.path.join(VERIF, ".work", f"{prop}-{tier}-{os.getpid()}")
     shutil.rmtree(outdir, ignore_errors=True)
     os.makedirs(outdir)
-    evidence_path = os.path.join(VERIF, "evidence", f"{prop}.json")
+    evidence_path = os.path.join(os.environ.get("CGV_EVIDENCE_DIR") or os.path.join(VERIF, "evidence"), f"{prop}.json")
 
     def harness_fail(msg):
         print(f"HARNESS-ERROR property={prop}: {msg}")
@@ -209,7 +209,7 @@ def main(argv):
             elif os.path.exists(f["path"]):
                 os.remove(f["path"])
     for b, f in sorted(by_bucket.items()):
-        final = os.path.join(VERIF, "replays", os.path.basename(f["path"]).rsplit("-w", 1)[0] + ".json")
+        final = os.path.join(os.path.dirname(f["path"]), os.path.basename(f["path"]).rsplit("-w", 1)[0] + ".json")
         os.replace(f["path"], final)
         violations.append((b, final, f["message"]))
 
@@ -269,7 +269,7 @@ def main(argv):
     )
     if violations:
         for b, path, msg in violations:
-            rel = os.path.relpath(path, VERIF)
+            rel = os.path.relpath(path, VERIF) if path.startswith(VERIF + os.sep) else path
             print(f"VIOLATION property={prop} replay={rel}")
             print(f"  bucket: {b}")
             print("  " + msg.replace("\n", "\n  ")[:1500])
